@@ -407,7 +407,12 @@ class Array(metaclass=MetaArray):
                     dshape = []  # index of dynamic shapes
                     for ndim in cls._shape:
                         if ndim is None:
-                            shape.append(args[len(dshape)])
+                            dim = args[len(dshape)]
+                            if isinstance(dim, np.integer):
+                                # the strides are products of the dimensions:
+                                # a small NumPy integer (np.int8) overflows
+                                dim = int(dim)
+                            shape.append(dim)
                             dshape.append(len(shape))
                         else:
                             shape.append(ndim)
